@@ -513,6 +513,24 @@ func runC17(args []string) error {
 		return err
 	}
 	sum.CasesFiles = append(tnames, lnames...)
+	// ---------- (d) address schemes as cmd.resolveURL reads them ----------
+	{
+		uf := &CasesFile{Requires: []string{"Model.Bytes", "Model.Obs", "Model.Auth", "Model.Validate", "Run.C17Run"}, CaseType: "urlcase", Check: "url_check", Show: "url_model"}
+		for _, u := range []struct{ url, sch string }{
+			{"http://127.0.0.1:8443", "SchHttp"}, {"https://127.0.0.1:8443", "SchHttps"}, {"https://[::1]:443", "SchHttps"},
+			{"unix:///var/run/regatta.sock", "SchUnix"}, {"unixs:///var/run/regatta.sock", "SchUnixs"}, {"unixs://rel/path.sock", "SchUnixs"},
+			{"tcp://127.0.0.1:1", "SchOther"}, {"HTTPS://127.0.0.1:1", "SchHttps"}, {"ftp://x", "SchOther"},
+		} {
+			_, sec, nw := cmd.VerifResolveURL(u.url)
+			uf.Add(fmt.Sprintf("{| u_scheme := %s; u_impl := %s |}", u.sch, oL(oBool(sec), oBool(nw == "unix"))), u.url)
+			sum.Evaluations++
+		}
+		unames, err := uf.Write(rf.Out, "c17_urls", 50)
+		if err != nil {
+			return err
+		}
+		sum.CasesFiles = append(sum.CasesFiles, unames...)
+	}
 	return sum.write(rf.Out, "c17")
 }
 
